@@ -63,9 +63,6 @@ CollapseOK == \A q \in Qubits(st) : \A o \in {0,1} :
       \* projection: kept amplitudes are the old ones times one common positive scalar
       /\ \E j \in 0..8 : \A i \in Idx(st) : Bit(i,q) = o => t.vec[i] = MulSqrt2(st.vec[i], j)
 
-(* reduced density matrix of the qubits other than q, entry (i,j) with bit q of i,j = 0 *)
-Rho(s,q,i,j) == Add(Mul(s.vec[i], Conj(s.vec[j])),
-                    Mul(s.vec[Flip(i,q)], Conj(s.vec[Flip(j,q)])))
 \* reset is local: averaged over the midpoint draws the other qubits' reduced state is unchanged,
 \* and the target ends in |0>, flag cleared
 ResetLocal == \A q \in Qubits(st) :
